@@ -60,7 +60,12 @@ class VLoop(asyncio.BaseEventLoop):
 
     def pending_gates(self):
         self.gates = [g for g in self.gates if not g.fut.done()]
-        return self.gates
+        try:
+            # canonical order by label, so that a schedule does not depend on task creation order
+            # (asyncio.wait / as_completed iterate over sets of futures, whose order the loop does not own)
+            return sorted(self.gates, key=lambda g: g.label)
+        except TypeError:
+            return self.gates
 
     def gate(self, label):
         g = Gate(self, label)
